@@ -292,7 +292,7 @@ package account
 //@   modifies ao.suicided, ao.onDirty, heap("map[common.Address]struct{}")
 
 //@ func AccountDB.Suicide
-//@   property C04
+//@   property C04 C06
 //@   requires adb != nil && common.Big0 != nil && big(common.Big0) == 0
 //@   ensures [journal] result ==> len(adb.transitions) == old(len(adb.transitions)) + 1 && istype(adb.transitions[len(adb.transitions)-1], suicideChange)
 //@   ensures [prev]    result ==> unbox(adb.transitions[len(adb.transitions)-1], suicideChange).prev == old(ptr(accountObject, registered(ref(adb), addr)).suicided) || old(registered(ref(adb), addr)) == 0
@@ -301,6 +301,7 @@ package account
 //@   ensures [prefix]  forall i int :: 0 <= i && i < old(len(adb.transitions)) ==> adb.transitions[i] == old(adb.transitions[i])
 //@   ensures [none]    !result ==> len(adb.transitions) == old(len(adb.transitions)) && ghost(bal) == old(ghost(bal))
 //@   ensures [zero]    result ==> balOf(addr) == 0
+//@   ensures [live]    old(registered(ref(adb), addr)) != 0 && !old(ptr(accountObject, registered(ref(adb), addr)).deleted) ==> result
 
 //@ func suicideChange.undo
 //@   property C04
@@ -340,3 +341,25 @@ package account
 //@   ensures [emptied] forall k string :: !has(ao.dirtyStorage, k)
 //@   ensures [applied] forall k string :: old(has(ao.dirtyStorage, k)) ==> @select(ghost(flushed), bytes(k))
 //@   modifies ao.trie, ao.dbErr, entries(ao.dirtyStorage), ghost(flushed)
+
+// ---------------------------------------------------------------------------------------------
+// Logs (C04): AddLog numbers the log with the block-wide counter, appends it to the list of the current
+// transaction and journals it; the undo removes exactly that log and gives the number back, so that logs
+// emitted after a reverted frame are numbered as if the frame had never run.
+//@ func AccountDB.AddLog
+//@   property C04
+//@   requires adb != nil && log != nil && adb.logs != nil && adb.logSize < 4294967295
+//@   ensures [count]    adb.logSize == old(adb.logSize) + 1
+//@   ensures [index]    log.Index == old(adb.logSize) && log.TxHash == adb.thash
+//@   ensures [journal]  len(adb.transitions) == old(len(adb.transitions)) + 1 && istype(adb.transitions[len(adb.transitions)-1], addLogChange) && unbox(adb.transitions[len(adb.transitions)-1], addLogChange).txhash == adb.thash
+//@   ensures [prefix]   forall i int :: 0 <= i && i < old(len(adb.transitions)) ==> adb.transitions[i] == old(adb.transitions[i])
+//@   ensures [appended] has(adb.logs, adb.thash) && (old(has(adb.logs, adb.thash)) ==> len(adb.logs[adb.thash]) == old(len(adb.logs[adb.thash])) + 1) && (!old(has(adb.logs, adb.thash)) ==> len(adb.logs[adb.thash]) == 1)
+//@   ensures [others]   forall h common.Hash :: h != adb.thash ==> has(adb.logs, h) == old(has(adb.logs, h))
+
+//@ func addLogChange.undo
+//@   property C04
+//@   requires s != nil && has(s.logs, ch.txhash) && len(s.logs[ch.txhash]) >= 1 && s.logSize >= 1
+//@   ensures [count]  s.logSize == old(s.logSize) - 1
+//@   ensures [popped] (old(len(s.logs[ch.txhash])) == 1 ==> !has(s.logs, ch.txhash)) && (old(len(s.logs[ch.txhash])) > 1 ==> has(s.logs, ch.txhash) && len(s.logs[ch.txhash]) == old(len(s.logs[ch.txhash])) - 1)
+//@   ensures [others] forall h common.Hash :: h != ch.txhash ==> has(s.logs, h) == old(has(s.logs, h))
+//@   modifies s.logSize, entries(s.logs)
